@@ -116,7 +116,7 @@ pub fn check_opt(case: &Case08, ctx: &mut Ctx) -> Verdict {
 }
 
 /// shapes that trigger each shortcut: leading literal / class / ^, X*Y with related or unrelated first sets, counted repeats
-fn trigger_strategy() -> BoxedStrategy<Node> {
+pub fn trigger_strategy() -> BoxedStrategy<Node> {
     // letters from different regions of the code space: the first-set comparison gives up after 100 characters, so
     // what happens for characters beyond that point ('x', 'é', '𐐀') differs from what happens for 'a'
     let lit = prop::sample::select(vec!['a', 'b', 'A', '1', '\n', 'c', 'x', 'z', 'é', '𐐀']).prop_map(Node::Lit);
@@ -141,6 +141,10 @@ fn trigger_strategy() -> BoxedStrategy<Node> {
         1 => (atom.clone(), quant.clone()).prop_map(|(b, (min, max, greedy, brace))| Node::Rep { body: Box::new(Node::cap(b)), min, max, greedy, brace }),
         1 => prop_oneof![Just(Node::Bol), Just(Node::Eol)],
         1 => prop::collection::vec(lit.clone(), 2..4).prop_map(Node::Cat),
+        // a quantified multi-character literal: fixed length > 1 per iteration, which every length computation
+        // (minimum length, fixed positions of preconditions, loop arithmetic) must multiply in
+        2 => (prop::collection::vec(lit.clone(), 2..4), quant.clone()).prop_map(|(v, (min, max, greedy, brace))| Node::Rep { body: Box::new(Node::ncap(Node::Cat(v))), min, max, greedy, brace }),
+        1 => (prop::collection::vec(lit.clone(), 2..4), 2u32..=3).prop_map(|(v, n)| Node::Rep { body: Box::new(Node::ncap(Node::Cat(v))), min: n, max: Some(n), greedy: true, brace: true }),
         // terms that can match the empty string without being a plain repeat: what follows them decides too
         1 => (lit.clone(), lit.clone(), lit.clone()).prop_map(|(a, b, c)| Node::ncap(Node::Alt(vec![Node::rep(Node::ncap(Node::Alt(vec![Node::Cat(vec![a, b.clone()]), b])), 0, None, true), c]))),
         1 => (lit.clone(), lit.clone()).prop_map(|(a, b)| Node::cap(Node::Alt(vec![Node::rep(Node::ncap(Node::Alt(vec![a.clone(), Node::Cat(vec![a, b.clone()])])), 0, Some(2), true), Node::Empty]))),
